@@ -47,10 +47,7 @@ verus! {
 //@ extract fn gentle_overwrite from src/util/mod.rs
 //@ canary propagate_error @<atomic_write_file(input_path, output_path, target_data).ok();>@ => @<atomic_write_file(input_path, output_path, target_data)?;>@
 //@ replace R7 @<if prev_trimmed == trimmed {>@ => @<if verif_str_eq(prev_trimmed, trimmed) {>@
-//@ sig r
-    ensures
-        (fs_text(output_path@) matches Some(prev) && str_trim(prev) == str_trim(target_data@)) ==> r is Ok,
-        r is Ok ==> ((fs_text(output_path@) matches Some(prev) && str_trim(prev) == str_trim(target_data@)) || replaced_atomically(output_path@, target_data.spec_bytes())),
+//@ sigfile r contracts/gentle_overwrite.sig
 //@ end
 }
 fn main() {}
